@@ -6,8 +6,8 @@ CONSTANTS
   NVals = 2
   WithEmpty = FALSE
   DevNoDedup = FALSE
-  DevSharedPrefix = FALSE
+  DevSharedPrefix = TRUE
   DevStreamInsert = FALSE
   N = 0
-INVARIANTS WellFormed LawProject LawWhere LawSets LawJoin LawSummarize LawRenameExtend LawIndexSpans LawInsertQuery
+INVARIANTS LawIndexSpans
 CHECK_DEADLOCK FALSE
